@@ -29,6 +29,9 @@ enum Step {
     Round,
     Reset(usize, usize, usize),
     Recycle(Api, usize, usize, usize),
+    /// a round that is started (some shards added, for a decoder possibly a
+    /// decode that fails for lack of shards) and never finished
+    Abandon,
 }
 
 fn api_rate(api: Api) -> RateKind {
@@ -66,6 +69,10 @@ fn plan(rng: &mut Rng) -> Vec<Step> {
             0 | 1 => v.push(Step::Round),
             2 | 3 => {
                 let (k, r, s) = small_cfg(rng, api_rate(api));
+                // half of the resets and hand-overs find an unfinished round
+                if rng.chance(1, 2) {
+                    v.push(Step::Abandon);
+                }
                 v.push(Step::Reset(k, r, s));
                 v.push(Step::Round);
             }
@@ -75,6 +82,9 @@ fn plan(rng: &mut Rng) -> Vec<Step> {
                 } else {
                     api = pick_api(rng, false);
                     let (k, r, s) = small_cfg(rng, api_rate(api));
+                    if rng.chance(1, 2) {
+                        v.push(Step::Abandon);
+                    }
                     v.push(Step::Recycle(api, k, r, s));
                     v.push(Step::Round);
                 }
@@ -232,6 +242,54 @@ fn execute(plan: &[Step], scale: usize, data_seed: u64, encoder: bool) -> Result
                 cur = (*api, *k, *r, size);
                 last_round_cfg = None;
             }
+            Step::Abandon => {
+                let (api, k, r, size) = cur;
+                let originals = gen::originals(&mut rng, k, size);
+                let n_orig = choice.below(k);
+                let with_rec = choice.chance(1, 2);
+                let try_decode = choice.chance(1, 2);
+                let (res, stats) = if encoder {
+                    let e = enc.as_mut().unwrap();
+                    measure(|| -> Result<(), String> {
+                        for o in &originals[..n_orig] {
+                            e.add(o).map_err(|e| e.to_string())?;
+                        }
+                        Ok(())
+                    })
+                } else {
+                    let junk = rng.bytes(size);
+                    let d = dec.as_mut().unwrap();
+                    measure(|| -> Result<(), String> {
+                        for (i, o) in originals.iter().enumerate().take(n_orig.min(k - 1)) {
+                            d.add_original(i, o).map_err(|e| e.to_string())?;
+                        }
+                        if with_rec && n_orig + 1 < k {
+                            d.add_recovery(r - 1, &junk).map_err(|e| e.to_string())?;
+                        }
+                        if try_decode {
+                            // fewer than k shards are in: this fails and changes nothing
+                            if d.decode_touch().is_ok() {
+                                return Err("decode with too few shards succeeded".into());
+                            }
+                        }
+                        Ok(())
+                    })
+                };
+                res?;
+                obs.push(StepObs {
+                    what: format!("unfinished round on {}({k},{r},{size})", api.name()),
+                    stats,
+                    fresh: Stats::default(),
+                    probe: None,
+                    size,
+                    need: 0,
+                    held_before: 0,
+                    shard: size.div_ceil(64) * 64,
+                    is_round: true,
+                    addr: 0,
+                    same_config_as_prev_round: false,
+                });
+            }
             Step::Round => {
                 let (api, k, r, size) = cur;
                 let originals = gen::originals(&mut rng, k, size);
@@ -368,9 +426,11 @@ fn history(case_seed: u64, out: &mut CaseOut, encoder: bool) {
                     );
                     return;
                 }
-                prev_addr[slot] = s.addr;
+                if s.addr != 0 {
+                    prev_addr[slot] = s.addr;
+                }
             }
-            out.tag(format!("{kind}:round"));
+            out.tag(if s1.what.starts_with("unfinished") { format!("{kind}:unfinished-round") } else { format!("{kind}:round") });
         } else {
             // reset / hand-over: judged only when the configuration needs no
             // more working space than is already held (at both scales)
